@@ -404,6 +404,32 @@ theorem keyOfValue_exists {d : Dict} {v : Rat} (h : ∃ k, (k, v) ∈ d) : ∃ k
   | some kv => exact ⟨kv.1, by simp⟩
 
 
+theorem keyOfPair_some {counts : List Nat} {d : Dict} {m : Nat × Rat} {k : Nat} (h : keyOfPair counts d m = some k) :
+    (k, m.2) ∈ d ∧ counts.getD k 0 = m.1 := by
+  unfold keyOfPair at h
+  have hk := List.min?_mem h
+  obtain ⟨kv, hkv, rfl⟩ := List.mem_map.mp hk
+  obtain ⟨hmem, hc⟩ := List.mem_filter.mp hkv
+  simp only [Bool.and_eq_true, decide_eq_true_eq] at hc
+  obtain ⟨a, b⟩ := kv
+  simp only at hc ⊢
+  exact ⟨by rw [← hc.2]; exact hmem, hc.1⟩
+
+theorem keyOfPair_exists {counts : List Nat} {d : Dict} {m : Nat × Rat} (h : ∃ kv ∈ d, (counts.getD kv.1 0, kv.2) = m) :
+    ∃ k, keyOfPair counts d m = some k := by
+  obtain ⟨kv, hkv, he⟩ := h
+  unfold keyOfPair
+  have hne : ((d.filter (fun kv => decide (counts.getD kv.1 0 = m.1) && decide (kv.2 = m.2))).map (·.1)) ≠ [] := by
+    intro hnil
+    have : kv.1 ∈ ((d.filter (fun kv => decide (counts.getD kv.1 0 = m.1) && decide (kv.2 = m.2))).map (·.1)) := by
+      refine List.mem_map.mpr ⟨kv, List.mem_filter.mpr ⟨hkv, ?_⟩, rfl⟩
+      simp only [Bool.and_eq_true, decide_eq_true_eq]
+      rw [← he]; exact ⟨rfl, rfl⟩
+    rw [hnil] at this; simp at this
+  cases hmin : ((d.filter (fun kv => decide (counts.getD kv.1 0 = m.1) && decide (kv.2 = m.2))).map (·.1)).min? with
+  | none => exact absurd (List.min?_eq_none_iff.mp hmin) hne
+  | some k => exact ⟨k, rfl⟩
+
 /-! ### the stages of `bisect1D` -/
 
 /-- What "go on with the bisection" means: the left-end sign is that of `E 0 maxH`, all three
@@ -465,7 +491,9 @@ theorem finish_selects {counts : List Nat} {E : Nat → Rat → Rat} {cfg : Cfg}
       -- remembered candidate with the same excess value, which is k
       (k', cfg.maxH) ∈ s.trace ++ [(i, cfg.maxH)] ∧ E k' cfg.maxH = E k cfg.maxH ∧
       (∀ j, (j, cfg.maxH) ∈ s.trace ++ [(i, cfg.maxH)] → E j cfg.maxH < 0 →
-          ¬ lexLt (counts.getD j 0, E j cfg.maxH) (counts.getD k' 0, E k' cfg.maxH) = true) := by
+          ¬ lexLt (counts.getD j 0, E j cfg.maxH) (counts.getD k' 0, E k' cfg.maxH) = true) ∧
+      -- since the F32 repair the key is carried through the sort: k has the borehole count of k' too
+      counts.getD k 0 = counts.getD k' 0 := by
   have hi : i ≤ xr := by have := hinv.ib; omega
   have hilen : ¬ counts.length ≤ i := by omega
   set mem' := dictSet s.mem i (E i cfg.maxH) with hmem'
@@ -488,8 +516,8 @@ theorem finish_selects {counts : List Nat} {E : Nat → Rat → Rat} {cfg : Cfg}
     obtain ⟨hm1, hm2, hm3⟩ := hspec
     obtain ⟨kvm, hkvm, hkvm_eq⟩ := List.mem_map.mp (by rw [hpairs] at hm1; exact hm1)
     have hv : kvm.2 = m.2 := by rw [← hkvm_eq]
-    obtain ⟨k, hk⟩ := keyOfValue_exists (d := mem') (v := m.2) ⟨kvm.1, by rw [← hv]; exact hkvm⟩
-    have hkmem : (k, m.2) ∈ mem' := keyOfValue_some hk
+    obtain ⟨k, hk⟩ := keyOfPair_exists (counts := counts) (d := mem') (m := m) ⟨kvm, hkvm, hkvm_eq⟩
+    have hkmem : (k, m.2) ∈ mem' := (keyOfPair_some hk).1
     have hEk : m.2 = E k cfg.maxH := hOK _ hkmem
     -- a non-positive value exists, so max(...) does not raise
     have hmax : ∃ eoi, maxOf ((mem'.map (·.2)).filter (fun v => decide (v ≤ 0))) = some eoi := by
@@ -514,8 +542,10 @@ theorem finish_selects {counts : List Nat} {E : Nat → Rat → Rat} {cfg : Cfg}
       · exact hinv.keysLe _ h'
       · injection h' with e1 _; simp only [e1]; exact hi
     have hEkvm : kvm.2 = E kvm.1 cfg.maxH := hOK _ hkvm
+    have hcnt : counts.getD k 0 = counts.getD kvm.1 0 := by
+      rw [(keyOfPair_some hk).2, ← hkvm_eq]
     refine ⟨k, kvm.1, ?_, by rw [← hEk]; exact hm2, hkeys _ hkmem, hmemTr _ hkmem, hmemTr _ hkvm,
-      by rw [← hEkvm, hv, hEk], ?_⟩
+      by rw [← hEkvm, hv, hEk], ?_, hcnt⟩
     · unfold finish
       simp only [hilen, if_false, ← hmem', hfp]
     · intro j hj hjneg
